@@ -41,9 +41,12 @@ def atom(v):
     raise TypeError(v)
 
 
-def gen_sig(rng):
+SELFISH = ["s", "el", "f", "lf"]      # parameter names that are substrings of "self"
+
+
+def gen_sig(rng, pool=NAMES):
     n = rng.randint(1, 4)
-    names = NAMES[:n]
+    names = pool[:n]
     params = []
     phase = 0  # 0 PK without default, 1 PK with default, 2 after *args / kw-only
     has_vp = has_vk = False
@@ -67,8 +70,8 @@ def gen_sig(rng):
     return params
 
 
-def sig_src(params):
-    parts, star = [], False
+def sig_src(params, method=False):
+    parts, star = (["self"] if method else []), False
     for p in params:
         if p["kind"] == "VP": parts.append("*ar"); star = True
         elif p["kind"] == "VK": parts.append("**kw")
@@ -79,9 +82,9 @@ def sig_src(params):
     return "async def fn(" + ", ".join(parts) + "):\n    CALLS.append(1)\n    return 1\n"
 
 
-def make_fn(params):
+def make_fn(params, method=False):
     ns = {"CALLS": []}
-    exec(sig_src(params), ns)
+    exec(sig_src(params, method), ns)
     fn = ns["fn"]
     fn.__module__ = "m"
     return fn, ns["CALLS"]
@@ -115,7 +118,8 @@ def gen_cases(rng, tier):
     cases = []
     n = 700 if tier == "quick" else 8000
     while len(cases) < n:
-        params = gen_sig(rng)
+        method = rng.random() < 0.15       # a method decorated through noself(): `self` is left out of the key, nothing else is
+        params = gen_sig(rng, rng.choice([SELFISH, NAMES]) if method else NAMES)
         named = [p for p in params if p["kind"] in ("PK", "KO")]
         has_vp = any(p["kind"] == "VP" for p in params)
         has_vk = any(p["kind"] == "VK" for p in params)
@@ -123,7 +127,7 @@ def gen_cases(rng, tier):
         surplus = [rng.choice(ATOMS) for _ in range(rng.randint(0, 2))] if has_vp and rng.random() < 0.5 else []
         extra = {rng.choice(["x", "y", "w"]): rng.choice(ATOMS) for _ in range(rng.randint(0, 2))} if has_vk and rng.random() < 0.6 else {}
         # template
-        mode = rng.choice(["auto", "auto", "explicit", "decor"])
+        mode = "noself" if method else rng.choice(["auto", "auto", "explicit", "decor"])
         tmpl = None
         if mode == "explicit":
             fs = [p["name"] for p in named if rng.random() < 0.7] or ([named[0]["name"]] if named else [])
@@ -191,8 +195,10 @@ def _params(case):
 
 def run_impl(case):
     params = _params(case)
-    fn, calls = make_fn(params)
+    method = case["mode"] == "noself"
+    fn, calls = make_fn(params, method)
     sig = inspect.signature(fn)
+    inst = object()
 
     async def go():
         from cashews import Cache
@@ -216,6 +222,9 @@ def run_impl(case):
             return await orig_set(key, value, *a, **k)
         mem.set = spy_set
         dec = cache(ttl=100)(fn) if mode == "decor" else None
+        if method:
+            from cashews import noself
+            dec = noself(cache)(ttl=100)(fn)
         if case.get("ctx_left_by_exception"):
             # a key-context block naming the function's own parameters (rewrite mode, as @invalidate uses it) that is left by an
             # exception earlier in the same task: the key of a later call must depend on that call's arguments only
@@ -239,7 +248,7 @@ def run_impl(case):
             ref = None
             for args, kwargs in fs[:12]:
                 try:
-                    ba = sig.bind(*args, **kwargs); ba.apply_defaults()
+                    ba = sig.bind(*(([inst] if method else []) + list(args)), **kwargs); ba.apply_defaults()
                 except TypeError:
                     continue
                 key_args = repr(sorted((k, repr(v), type(v).__name__) for k, v in ba.arguments.items()))
@@ -247,9 +256,9 @@ def run_impl(case):
                 if key_args != ref:
                     continue  # not equivalent (should not happen)
                 try:
-                    if mode == "decor":
+                    if mode in ("decor", "noself"):
                         await mem.clear(); del seen[:]
-                        await dec(*args, **kwargs)
+                        await dec(*(([inst] if method else []) + list(args)), **kwargs)
                         k = seen[0] if seen else None
                     else:
                         k = get_cache_key(fn, tstr if case["given"] else None, tuple(args), dict(kwargs))
@@ -263,7 +272,7 @@ def run_impl(case):
 
 def _tmpl_coq(case, obs):
     params = case["params"]
-    given = True if case["mode"] == "decor" else bool(case["given"])
+    given = True if case["mode"] in ("decor", "noself") else bool(case["given"])
     if case["tmpl"] is None or not given:   # get_cache_key(func, None, ...) falls back to the automatic template
         segs = [C("Lit", S("m:fn"))]
         for p in params:
@@ -285,7 +294,7 @@ def to_coq(case, obs):
 
     def grp(g):
         return [(([kv(_uv(a)) for a in args], [(S(n), kv(_uv(v))) for n, v in kwargs.items()]), None if k is None else Some(S(k))) for args, kwargs, k in g]
-    given = True if case["mode"] == "decor" else bool(case["given"])
+    given = True if case["mode"] in ("decor", "noself") else bool(case["given"])
     sep = bool(obs["g2"]) and bool(obs["g1"])
     return C("CKey", ps, _tmpl_coq(case, obs), given, grp(obs["g1"]), grp(obs["g2"]), sep)
 
